@@ -3,7 +3,8 @@
 Engine S: the real execute_concurrent / generator variant / execute_concurrent_async run in a
 virtual client thread over a stub session whose execute_async builds REAL ResponseFuture objects
 and, per statement, raises synchronously, completes before returning (ok / error) or completes
-later from a virtual completer thread (ok / error).  Behaviour vectors, concurrency levels,
+later from a virtual completer thread (ok / error); a completion may also be a first page with more pages, which
+the consumer pages on as soon as it holds the result while a pager thread delivers the next page.  Behaviour vectors, concurrency levels,
 fail-fast and variants are enumerated completely; schedules up to the preemption bound.
 The stub keeps a log (thread, event, statement) of failures / execute_async entries / finished
 completions; from it the oracle derives which failures can be 'the first' and fail-fast must
@@ -26,10 +27,17 @@ META = {
     'text': 'n <= 3 statements with every behaviour vector over {raises synchronously, completes before returning ok/error, completes '
             'later from another thread ok/error} (n = 3: concurrency 2; thorough: concurrency 1..3, and n = 4 over a 3-behaviour subset), '
             'plus every vector over the three caller-thread behaviours for n <= 4 (thorough 5); concurrency 1..n, '
-            'fail-fast on/off, variants list / generator / async-future; one client thread and one completer thread (thorough: also two, '
+            'fail-fast on/off, variants list / generator / async-future; paged statements (the real ResponseFuture with only the '
+            'transmission replaced: the first response, before returning or from the completer thread, has more pages; the consumer '
+            'calls ResultSet.fetch_next_page on every such result as soon as it is handed it - inside the generator loop, after the '
+            'list returned, after the async future completed - and a third thread, the pager, delivers the last page): n <= 2 every '
+            'vector over the five behaviours plus the two paged ones with at least one paged statement, concurrency 1..n; n = 3 with '
+            'one later-paged statement and the others over {completes before returning ok, later ok, later error} at concurrency '
+            '1..2, generator variant, fail-fast on only when a statement fails (thorough: one or two later-paged statements, the '
+            'others over all five behaviours, concurrency 1..3, every variant, fail-fast on/off); one client thread and one completer thread (thorough: also two, without paged statements, '
             'for n = 2 and for n = 3 over the subset at concurrency 2), '
             'scheduling points at every line of cassandra/concurrent.py and of ResponseFuture.add_callback(s)/add_errback/'
-            'clear_callbacks/_set_final_*; preemption bound 1 (thorough: 2 for n <= 2 with one completer, 1 otherwise).  Oracle: one result per statement at its own position, '
+            'clear_callbacks/_set_final_*; preemption bound 1 (thorough: 2 for n <= 2 with one completer and no paged statement, 1 otherwise).  Oracle: one result per statement at its own position, '
             'peak in-flight <= concurrency, fail-fast raises THE FIRST failure: the stub logs every failure, execute_async entry and '
             'returned completion with its thread in the serialised order; a failure is certainly later than another when it follows it '
             'in the same thread, or after that thread came back to the stub; the raised failure must be one with no certainly-earlier '
@@ -314,6 +322,8 @@ def harness(params, prefix, part):
     n = len(beh)
     fails = [i for i, b in enumerate(beh) if b in ('raise', 'now_err', 'later_err')]
     cls = 'sync' if not [b for b in beh if b.startswith('later')] else 'mixed'
+    if sess.peak > conc:
+        part.violation('C32/concurrency-exceeded/%s' % variant, 'peak in-flight %d > concurrency %d; params %r' % (sess.peak, conc, params), data)
     if s.failure:
         # with fail-fast the client may legitimately return while later statements are never submitted;
         # a completer waiting for a statement that will never be submitted is released by its predicate.
@@ -330,8 +340,6 @@ def harness(params, prefix, part):
         e = out['completer_exc'][0]
         part.violation('C32/completing-thread/%s/%s/%s' % (variant, type(e).__name__, cls),
                        '%r raised into the completing thread; params %r' % (e, params), data)
-    if sess.peak > conc:
-        part.violation('C32/concurrency-exceeded/%s' % variant, 'peak in-flight %d > concurrency %d; params %r' % (sess.peak, conc, params), data)
 
     res, raised = out.get('res'), out.get('raised')
     if variant == 'async' and 'fut' in out:
@@ -406,8 +414,8 @@ def configs(ctx):
     out = []
     seen = set()
 
-    def add(beh, conc, variants=('list', 'gen', 'async'), **extra):
-        for ff in (False, True):
+    def add(beh, conc, variants=('list', 'gen', 'async'), ffs=(False, True), **extra):
+        for ff in ffs:
             for variant in variants:
                 key = (tuple(beh), conc, ff, variant, extra.get('completers', 1))
                 if key not in seen:
@@ -433,26 +441,32 @@ def configs(ctx):
     for n in (1, 2, 3):
         if n <= 2:
             vecs = [v for v in itertools.product(BEH + PAGED, repeat=n) if set(v) & set(PAGED)]
+        elif ctx.thorough:
+            vecs = [v for v in itertools.product(BEH + ['later_paged_ok'], repeat=n) if 1 <= v.count('later_paged_ok') <= 2]
         else:
-            others = BEH if ctx.thorough else sub3
-            vecs = [v for v in itertools.product(list(others) + ['later_paged_ok'], repeat=n) if 1 <= v.count('later_paged_ok') <= 2]
+            vecs = [v for v in itertools.product(sub3 + ['later_paged_ok'], repeat=n) if v.count('later_paged_ok') == 1]
         for beh in vecs:
             for conc in (range(1, n + 1) if (n <= 2 or ctx.thorough) else (1, 2)):
-                # list / async-future hand the results out when the run is over: the consumer's paging can only overlap the
-                # last completion, which n <= 2 has; n = 3 in the quick tier: generator only
-                add(beh, conc, variants=('list', 'gen', 'async') if (n <= 2 or ctx.thorough) else ('gen',))
+                if n <= 2 or ctx.thorough:
+                    add(beh, conc)
+                else:
+                    # list / async-future hand the results out when the run is over: the consumer's paging can only overlap
+                    # the last completion, which n <= 2 has; n = 3 in the quick tier: generator only, fail-fast on only
+                    # when a statement fails (without a failure the two runs differ in no step)
+                    add(beh, conc, variants=('gen',), ffs=(False, True) if 'later_err' in beh else (False,))
     if ctx.thorough:
         # two completer threads (bound 1 already yields ~4000 schedules per configuration): n = 2 every vector with two
         # later completions, n = 3 over the 3-behaviour subset at concurrency 2
         out += [dict(c, completers=2) for c in out if sum(1 for b in c['beh'] if b.startswith('later')) >= 2 and
+                not set(c['beh']) & set(PAGED) and
                 (len(c['beh']) == 2 or (len(c['beh']) == 3 and c['conc'] == 2 and set(c['beh']) <= set(sub3)))]
     return out
 
 
 def bound_of(ctx, params):
     """Preemption bound of a configuration: quick 1; thorough 2 for n <= 2 statements with one completer (measured:
-    1.2 million schedules), 1 for the larger configurations (bound 2 there is ~30 000 schedules per configuration)."""
-    if ctx.thorough and len(params['beh']) <= 2 and params.get('completers', 1) == 1:
+    1.2 million schedules) and no paged statement (a third thread), 1 for the larger configurations (bound 2 there is ~30 000 schedules per configuration)."""
+    if ctx.thorough and len(params['beh']) <= 2 and params.get('completers', 1) == 1 and not set(params['beh']) & set(PAGED):
         return 2
     return 1
 
@@ -468,10 +482,14 @@ def run(ctx):
         ctx.merge(part)
     ctx.count('states', ctx.counters.get('executions', 0))
     ctx.cov['preemption_bound'] = max(b for _, b in work)
-    ctx.cov['preemption_bound_by_size'] = {'n<=2, one completer': bound_of(ctx, {'beh': [0]}), 'larger': 1}
+    ctx.cov['preemption_bound_by_size'] = {'n<=2, one completer, not paged': bound_of(ctx, {'beh': ['now_ok']}), 'larger or paged': 1}
+    ctx.count('configs_with_paged_statement', sum(1 for c in cfgs if set(c['beh']) & set(PAGED)))
     ctx.cov['rule'] = ('every configuration (behaviour vector, concurrency, fail-fast, variant) x every schedule within the preemption '
                        'bound; non-trivial = execution with a non-default scheduling choice; first_failure_judged = fail-fast executions whose '
-                       'raised failure was compared with the admissible first failures, first_failure_unique = those with exactly one admissible')
+                       'raised failure was compared with the admissible first failures, first_failure_unique = those with exactly one admissible; '
+                       'next_pages_delivered = next pages the consumer fetched and the pager thread delivered, '
+                       'paged_on_before_first_page_delivery_returned = page requests made while the completer thread was still inside '
+                       'the delivery of that statement\'s first page')
     ctx.cov['exhaustive'] = True
 
 
